@@ -265,7 +265,7 @@ func c05Specs() []*edt.Spec {
 		{
 			// SetCanonicalBytes: len = 32 ∧ bit 255 clear ∧ IsCanonical
 			Pkg: "curve/scalar", Func: "(*Scalar).SetCanonicalBytes", Opaque: []string{"Scalar.IsCanonical"}, MinPaths: 3,
-			Vars:      map[string]string{"(len($in) == 32)": "len32", "(($in[31] >> 7) == 0)": "highBitClear"},
+			Vars:      map[string]string{"(len($in) == 32)": "len32", "(($in[31] >> 7) == 0)": "highBitClear", "(($in[31] & 128) == 0)": "highBitClear"},
 			VarPrefix: map[string]string{"Scalar.IsCanonical(": "isCanonical"},
 			Classify: func(p *edt.Path, out string, e *edt.Env) string {
 				switch {
